@@ -1773,4 +1773,180 @@ theorem bytesGo_nonAscii_only (fuel : Nat) : ∀ (raw : Bool) (pos : Nat) (body 
           exact ⟨x, List.mem_cons_of_mem _ hx, hx128⟩
 
 
+
+/-! ### f-strings -/
+
+def isOpCh (c : Nat) : Bool := c = 33 || c = 61 || c = 62 || c = 60
+
+/-- the expression text begins with a comparison operator (`!=`, `==`, `>=`, `<=`) -/
+def OpHead (expr : List Nat) : Prop := ∃ c pre, isOpCh c = true ∧ expr.reverse = c :: 61 :: pre
+
+theorem OpHead_append (x e : List Nat) (h : OpHead e) : OpHead (x ++ e) := by
+  obtain ⟨c, pre, hc, he⟩ := h
+  exact ⟨c, pre ++ x.reverse, hc, by simp [he]⟩
+
+theorem OpHead_cons (x : Nat) (e : List Nat) (h : OpHead e) : OpHead (x :: e) :=
+  OpHead_append [x] e h
+
+theorem OpHead_not_blank (e : List Nat) (h : OpHead e) : (e.all (· = 32)) = false := by
+  obtain ⟨c, pre, hc, he⟩ := h
+  have hm : c ∈ e := by
+    have : c ∈ e.reverse := by rw [he]; simp
+    simpa using this
+  cases hb : e.all (· = 32)
+  · rfl
+  · rw [List.all_eq_true] at hb
+    have := hb c hm
+    simp at this
+    subst this
+    simp [isOpCh] at hc
+
+theorem OpHead_exprOk (e : List Nat) (h : OpHead e) : exprOk e.reverse = false := by
+  obtain ⟨c, pre, hc, he⟩ := h
+  rw [he]
+  unfold isOpCh at hc
+  simp only [Bool.or_eq_true, decide_eq_true_eq] at hc
+  rcases hc with ((rfl | rfl) | rfl) | rfl <;> simp [exprOk, exprOkGo, isNameCh]
+
+
+
+/-- once the expression text begins with a comparison operator the field can never be completed -/
+theorem fvGo_never_ok_op (fuel : Nat) : ∀ (nested loc : Nat) (st : FVState) (pos : Nat) (cs : List Nat),
+    OpHead st.expr → ∀ r, fvGo fuel nested loc st pos cs ≠ .ok r := by
+  induction fuel with
+  | zero => intro nested loc st pos cs _ r h; simp [fvGo] at h
+  | succ fuel ih =>
+    intro nested loc st pos cs hj r
+    cases cs with
+    | nil => intro h; simp [fvGo] at h
+    | cons ch rest =>
+      rw [fvGo.eq_3]
+      have hb := OpHead_not_blank _ hj
+      have he := OpHead_exprOk _ hj
+      simp only [hb, he, Bool.false_eq_true, if_false]
+      intro h
+      by_cases c1 : ((decide (ch = 33) || decide (ch = 61) || decide (ch = 62) || decide (ch = 60)) &&
+            headIs (fun x => decide (x = 61)) rest) = true
+      · rw [if_pos c1] at h
+        exact ih _ _ _ _ _ (OpHead_cons _ _ (OpHead_cons _ _ hj)) _ h
+      rw [if_neg c1] at h
+      by_cases c2 : (decide (ch = 33) && st.delims.isEmpty) = true
+      · rw [if_pos c2] at h
+        split at h
+        · cases h
+        · split at h
+          · split at h
+            · exact ih _ _ _ _ _ hj _ h
+            · cases h
+          · cases h
+      rw [if_neg c2] at h
+      by_cases c3 : (decide (ch = 61) && st.delims.isEmpty) = true
+      · rw [if_pos c3] at h
+        exact ih _ _ { expr := st.expr, delims := st.delims, selfDoc := true } _ _ hj _ h
+      rw [if_neg c3] at h
+      by_cases c4 : (decide (ch = 58) && st.delims.isEmpty) = true
+      · rw [if_pos c4] at h
+        split at h
+        · cases h
+        · exact ih _ _ _ _ _ hj _ h
+      rw [if_neg c4] at h
+      by_cases c5 : ((decide (ch = 40) || decide (ch = 123) || decide (ch = 91)) && !st.selfDoc) = true
+      · rw [if_pos c5] at h
+        exact ih _ _ _ _ _ (OpHead_cons _ _ hj) _ h
+      rw [if_neg c5] at h
+      by_cases c6 : (decide (ch = 41) || decide (ch = 93)) = true
+      · rw [if_pos c6] at h
+        split at h
+        · cases h
+        · split at h
+          · exact ih _ _ _ _ _ (OpHead_cons _ _ hj) _ h
+          · cases h
+      rw [if_neg c6] at h
+      by_cases c7 : (decide (ch = 125) && !st.delims.isEmpty) = true
+      · rw [if_pos c7] at h
+        split at h
+        · split at h
+          · exact ih _ _ _ _ _ (OpHead_cons _ _ hj) _ h
+          · cases h
+        · exact ih _ _ _ _ _ hj _ h
+      rw [if_neg c7] at h
+      by_cases c8 : ch = 125
+      · rw [if_pos c8] at h; cases h
+      rw [if_neg c8] at h
+      by_cases c9 : ((decide (ch = 34) || decide (ch = 39)) && !st.selfDoc) = true
+      · rw [if_pos c9] at h
+        split at h
+        · split at h
+          · cases h
+          · exact ih _ _ _ _ _ (OpHead_append _ _ (OpHead_cons _ _ hj)) _ h
+        · split at h
+          · cases h
+          · exact ih _ _ _ _ _ (OpHead_cons _ _ (OpHead_append _ _ (OpHead_cons _ _ hj))) _ h
+      rw [if_neg c9] at h
+      split at h
+      · exact ih _ _ _ _ _ hj _ h
+      · split at h
+        · cases h
+        · split at h
+          · cases h
+          · exact ih _ _ _ _ _ (OpHead_cons _ _ hj) _ h
+
+
+
+/-- after the self-documenting `=` with no expression before it, the field can never be completed -/
+theorem fvGo_never_ok_selfdoc_empty (fuel : Nat) : ∀ (nested loc pos : Nat) (cs : List Nat) r,
+    fvGo fuel nested loc ⟨[], [], true⟩ pos cs ≠ .ok r := by
+  induction fuel with
+  | zero => intro nested loc pos cs r h; simp [fvGo] at h
+  | succ fuel ih =>
+    intro nested loc pos cs r
+    cases cs with
+    | nil => intro h; simp [fvGo] at h
+    | cons ch rest =>
+      rw [fvGo.eq_3]
+      simp only [List.all_nil, List.isEmpty_nil, Bool.and_true, Bool.not_true, Bool.and_false,
+        Bool.false_eq_true, if_false, if_true]
+      intro h
+      by_cases c1 : ((decide (ch = 33) || decide (ch = 61) || decide (ch = 62) || decide (ch = 60)) &&
+            headIs (fun x => decide (x = 61)) rest) = true
+      · rw [if_pos c1] at h
+        refine fvGo_never_ok_op _ _ _ _ _ _ ⟨ch, [], ?_, by simp⟩ _ h
+        simp only [Bool.and_eq_true] at c1
+        exact c1.1
+      rw [if_neg c1] at h
+      split at h
+      · cases h
+      · split at h
+        · exact ih _ _ _ _ _ h
+        · split at h
+          · split at h
+            · cases h
+            · exact ih _ _ _ _ _ h
+          · split at h
+            · cases h
+            · split at h
+              · cases h
+              · split at h
+                · exact ih _ _ _ _ _ h
+                · split at h <;> cases h
+
+
+
+theorem fvGo_leading_equals (fuel nested loc pos : Nat) (rest : List Nat) (r : List Nat × Nat) :
+    fvGo fuel nested loc ⟨[], [], false⟩ pos (61 :: rest) ≠ .ok r := by
+  cases fuel with
+  | zero => intro h; simp [fvGo] at h
+  | succ fuel =>
+    rw [fvGo.eq_3]
+    intro h
+    by_cases c1 : ((decide ((61 : Nat) = 33) || decide ((61 : Nat) = 61) || decide ((61 : Nat) = 62) || decide ((61 : Nat) = 60)) &&
+          headIs (fun x => decide (x = 61)) rest) = true
+    · rw [if_pos c1] at h
+      exact fvGo_never_ok_op _ _ _ _ _ _ ⟨61, [], by decide, by simp⟩ _ h
+    · rw [if_neg c1] at h
+      simp only [Nat.reduceEqDiff, decide_false, Bool.false_and, Bool.false_eq_true, if_false, decide_true,
+        List.isEmpty_nil, Bool.and_self, if_true] at h
+      exact fvGo_never_ok_selfdoc_empty _ _ _ _ _ _ h
+
+
 end PV.C04
